@@ -30,7 +30,7 @@ META = {
     "level": "proof",
     "technique": "Coq theorem over an abstract disk/effect model (every crash index and torn flag of any step, by frame lemmas over the effect list) + effect-trace correspondence and exhaustive fault injection (process death at every file-system effect, torn writes) against the real program with restart and continuation",
     "text": "Unbounded theorem: for every disk consistent with its restart record, every step description (any number of new paths and deletions, accepted or rejected) satisfying the stated side conditions, EVERY crash index and torn flag: the restart reads the old or the new record, every path it lists is complete on disk, no effect prefix touches a file of a path the on-disk record lists, and the rows kept are those of before the step (old record; the step is redone) or those plus one row per replaced path (new record): after continuing every replaced path has exactly one row. The original code (in-place rewrite of restart.toml, no trimming) is refuted at two crash points. Tie: the logged effects of real treat_output calls equal the model's effect list; the side conditions are evaluated on the real steps; the real program is killed at every effect index (and half-way through every write) of steps of several kinds (shooting, wire fencing, zero swap, rejected, delete_old, delete_old_all, two workers), restarted and continued, and record/rows found are compared with the model; double crashes in both tiers. Family 'orders a hair off an interface': the same crash enumeration on runs whose interfaces are INTEGERS and whose order parameter is position + eps (|eps| < 5e-7, lost in the six decimals of order.txt; plain shooting only and mixed with wire fencing; thorough: also eps < 0, interface_cap and lambda_minus_one on integers, two workers): a live path that crosses the interface of its slot by eps in memory is stored with a maximum EQUAL to the interface, so the weights the restart recomputes from disk (calc_cv_vector in load_paths) are the only place where strict and non-strict comparisons differ; the restart must start and every live path must load with non-zero weight in its slot; the check fails closed when no traced step has such a path live.",
-    "note": "Trusted: Coq kernel; extraction + OCaml driver; py/crash_harness.py (patches builtins.open, os.remove/rmdir/rename/replace/makedirs/mkdir, shutil.move/copy; a crash is a BaseException raised at the effect, writes are torn at half of the bytes of one write call; in the second, 'buffered' mode written data reaches the disk only when the file is flushed or closed, that flush is the tearable effect and a file still open at the crash loses its buffer). POSIX semantics of rename/append/truncate and loss of page-cache contents on power failure are NOT modelled: a crash is process death. Worker processes are not crashed (jobs run in-process). The abstraction of the log (consecutive mkdir/rmdir collapsed, open+writes of one file = one write effect, move+rename = one atomic move) is part of the harness. Hair family: py/plugins/engines.py (order_eps, default 0.0 = unchanged) and crash_cases.write_setup (rewrites the interfaces of the set-up written by sysharness to integers and shifts the order.txt of the hand-made initial paths by +-1e-6, so that they are valid under any reading of the comparisons: only paths the program stored itself sit on an interface). NOT covered and known to fail on the unmodified program: interfaces with more than six decimals (a path maximum between the interface and the next multiple of 1e-6 is stored BELOW the interface: the restart dies in add_traj).",
+    "note": "Trusted: Coq kernel; extraction + OCaml driver; py/crash_harness.py (patches builtins.open, os.remove/rmdir/rename/replace/makedirs/mkdir, shutil.move/copy; a crash is a BaseException raised at the effect, writes are torn at half of the bytes of one write call; in the second, 'buffered' mode written data reaches the disk only when the file is flushed or closed, that flush is the tearable effect and a file still open at the crash loses its buffer). POSIX semantics of rename/append/truncate and loss of page-cache contents on power failure are NOT modelled: a crash is process death. Worker processes are not crashed (jobs run in-process). The abstraction of the log (consecutive mkdir/rmdir collapsed, open+writes of one file = one write effect, move+rename = one atomic move) is part of the harness. Hair family: py/plugins/engines.py (order_eps, default 0.0 = unchanged) and crash_cases.write_setup (rewrites the interfaces of the set-up written by sysharness to integers and shifts the order.txt of the hand-made initial paths by +-1e-6, so that they are valid under any reading of the comparisons: only paths the program stored itself sit on an interface). Known finding (known_findings.json, 'six-decimal order files'): with an interface of more than six decimals a path maximum between the interface and the next multiple of 1e-6 is stored BELOW the interface and every restart while that path is live dies in add_traj (assert valid[ens] != 0); one fixed scenario (interfaces k + 3e-7, orders = position + 4e-7, crash in step 2 at effects 0, 5, 30; oracle only) exercises it in both tiers: KNOWN-FINDING line while the entry is listed, VIOLATION with the input when it is not, an ordinary case when it passes, and any other failure of that scenario is a VIOLATION.",
     "design_ref": "4/C08",
 }
 LEVEL = "proof"
